@@ -10,8 +10,8 @@ K1  identity: a subscription is identified by ids, eventgroup, counter and endpo
 from __future__ import annotations
 
 from ..facts import AnalysisError
-from ..terms import const, show, strip_sites
-from ..util import InlineOnly, NoInline, P, calls_to, engine, loc, param_at
+from ..terms import const, contains, show, strip_sites
+from ..util import implied_atoms, InlineOnly, NoInline, P, calls_to, engine, loc, param_at
 from .derived import cache_coherence
 from .ordering import (arming, cancel_on_removal, every_removal_reported, PROTO, TS, Ctx, atomic_notifications, expiry_once, reboot_before_entries, reject_before_record)
 
@@ -133,6 +133,63 @@ def check(run, prog, tier):
     effs = cx.effects(cl.qual, ANN)
     uns = [e for e in effs if e.kind == "notify" and e.what == "unsubscribed"]
     run.ob("H1", f"{cl.qual}:reaches-unsubscribed", bool(uns), loc(cl), f"connection loss reaches client_unsubscribed ({len(uns)} site(s))")
+
+    # ---- K1 the record names the subscriber's endpoints: from_subscribe_entry puts exactly the endpoint options of the entry
+    # into `endpoints` (part of the identity, where notifications go) and every other option into `options`
+    fse = cx.m(SUB, "from_subscribe_entry")
+    ent_p = P(fse, param_at(fse, 0, "entry"))
+    e1 = engine(prog, NoInline())
+    e1.policy.unroll = 1
+    seen_kinds = set()
+    badp = None
+    for p in e1.paths(fse, recv=SUB):
+        run.paths += 1
+        if not p.returns():
+            continue
+        rv = p.retval()
+        flds = dict(rv[2]) if rv[0] == "new" and rv[1] == SUB else None
+        if flds is None:
+            raise AnalysisError(f"{fse.qual}: does not return a constructed subscription")
+
+        def elems_of(tm):
+            """('list', [elem terms]) for a tracked list / tuple / frozenset(list) or ('comp', filter polarity) for a comprehension"""
+            while tm[0] == "call" and tm[1][0] == "ext" and tm[1][1] in ("frozenset", "tuple", "list", "set") and len(tm[2]) == 1:
+                tm = tm[2][0]
+            if tm[0] in ("list", "tuple", "set"):
+                return ("list", list(tm[1]))
+            if tm[0] == "comp" and len(tm[3]) == 1:
+                conds = tm[3][0][2]
+                pol = None
+                if len(conds) == 1:
+                    c = conds[0]
+                    neg = False
+                    while c[0] == "unop" and c[1] == "not":
+                        c, neg = c[2], not neg
+                    if c[0] == "call" and c[1] == ("ext", "isinstance") and len(c[2]) == 2 and c[2][1] == ("cls", "header.EndpointOption") and c[2][0] == tm[2]:
+                        pol = not neg
+                return ("comp", pol, tm[3][0][1])
+            return None
+        ep, op = elems_of(flds.get("endpoints", ("tuple", ()))), elems_of(flds.get("options", ("tuple", ())))
+        if ep is None or op is None:
+            raise AnalysisError(f"{fse.qual}: cannot read how endpoints / options are collected ({show(flds.get('endpoints'))[:50]})")
+        if ep[0] == "comp" or op[0] == "comp":
+            okp = ep[0] == "comp" and op[0] == "comp" and ep[1] is True and op[1] is False and \
+                strip_sites(ep[2]) == strip_sites(op[2]) and contains(ep[2], lambda s_: s_ == ("attr", ent_p, "options"))
+            seen_kinds.add("comp")
+        else:
+            # path form: each visited option went to exactly one of the two lists, by the isinstance test decided on the path
+            decided = {}
+            for c, v in implied_atoms(p.conds):
+                if c[0] == "call" and c[1] == ("ext", "isinstance") and len(c[2]) == 2 and c[2][1] == ("cls", "header.EndpointOption"):
+                    decided[c[2][0]] = v
+            okp = all(decided.get(x) is True for x in ep[1]) and all(decided.get(x) is False for x in op[1]) \
+                and set(ep[1]) | set(op[1]) == set(decided) and not (set(ep[1]) & set(op[1]))
+            seen_kinds.add(f"loop[{len(decided)}]")
+        if not okp and badp is None:
+            badp = f"endpoints={show(flds.get('endpoints'))[:70]} options={show(flds.get('options'))[:70]} on path [{p.describe()[:50]}]"
+    run.ob("K1", f"{fse.qual}:endpoint-options-are-the-endpoints", badp is None and bool(seen_kinds), loc(fse),
+           "the endpoint options of the Subscribe entry become the subscription's endpoints, all other options its options" if badp is None else
+           f"the options of the entry are not partitioned by EndpointOption: {badp}")
 
     # ---- K1 identity
     ci = prog.cls(SUB)
